@@ -29,7 +29,7 @@ LEVEL_TEXT = ("Theorems over the scheduler bookkeeping for all wakeup maps and h
               "unless updated earlier).")
 LEVEL_NOTE = "Trusts: Lean kernel; hand-written bookkeeping model; whole-simulation comparison uses zero processing cost."
 ASSUMPTIONS = ["an interrupt's stamp is not later than the component's pending callback when processing cost is zero"]
-MON = ("callbacks", "tick_times", "device_order", "tick_provenance")
+MON = ("callbacks", "tick_times", "device_order", "tick_provenance", "merged")
 CORR = ("sim",)
 
 
@@ -92,6 +92,10 @@ def shaped(rng):
     return [
         {"components": [dev("kick", cb={"kind": "period", "p": 6 * P}), dev("dog", {"i": ["kick", "o"]}, cb={"kind": "period", "p": 10 * P})], "n_ticks": 7},
         {"components": [dev("a", cb={"kind": "period", "p": 5 * P}), dev("b", cb={"kind": "period", "p": 5 * P}), dev("c", {"i": ["a", "o"]}, cb={"kind": "period", "p": 10 * P})], "n_ticks": 6},
+        # an interrupt that is handled at the very instant another component's callback becomes due
+        # (stamped exactly with that callback's time): both are due at once and must share one tick
+        *[{"components": [dev("X", cb={"kind": "period", "p": 60 * P}), dev("Y")], "n_ticks": 4, "speed": sp,
+           "stims": [{"real": 60 * P * sp[1] // sp[0] - 10 - k, "pre_cost": 10 + k, "comp": "Y"}]} for sp in ([1, 1], [1, 2]) for k in (0, 3)],
         {"components": [dev("p", cb={"kind": "period", "p": 10 * P}), dev("q", {"i": ["p", "o"]})], "n_ticks": 7,
          "stims": [{"real": 5 * P + 111, "comp": "p"}, {"real": 23 * P + 111, "comp": "p"}, {"real": 27 * P + 111, "comp": "q"}]},
     ]
